@@ -166,6 +166,70 @@ func joyGen(c *Ctx) {
 			transitions++
 		}
 	}
+	// Histories: the observable state does not identify the controller's internal state if it keeps more than it shows
+	// (an event filter, a latch): every sequence of up to 5 press / release events on one axis, and random walks over
+	// all keys and select writes, a read-out after every step.
+	readAll := func(m *machine.Machine, seg [][]any) [][]any {
+		for s := 0; s < 4; s++ {
+			m.M.Write(0xff00, uint8(s<<4))
+			seg = append(seg, []any{"w", s << 4}, []any{"rd", int(m.M.Read(0xff00))})
+		}
+		return seg
+	}
+	nh := 0
+	for _, axis := range [][2]string{{"Up", "Down"}, {"Left", "Right"}} {
+		alpha := []joyOp{{kind: "p", key: axis[0]}, {kind: "p", key: axis[1]}, {kind: "r", key: axis[0]}, {kind: "r", key: axis[1]}}
+		for length := 3; length <= 5; length++ {
+			total := 1
+			for i := 0; i < length; i++ {
+				total *= 4
+			}
+			for code := 0; code < total; code++ {
+				m := joyFresh()
+				seg := [][]any{{"rd", int(m.M.Read(0xff00))}}
+				x := code
+				for i := 0; i < length; i++ {
+					o := alpha[x%4]
+					x /= 4
+					joyApply(m, o)
+					seg = append(seg, o.ev())
+					if i >= length-2 {
+						seg = readAll(m, seg)
+					}
+				}
+				w.Put(&trace.Scenario{ID: fmt.Sprintf("joy-hist-%d", nh), Reset: []int{}, Ev: seg})
+				nh++
+			}
+		}
+	}
+	walks := 200
+	if c.Thorough() {
+		walks = 4000
+	}
+	for i := 0; i < walks; i++ {
+		m := joyFresh()
+		seg := [][]any{}
+		if i%2 == 0 {
+			seg = append(seg, []any{"rd", int(m.M.Read(0xff00))}) // before anything was written
+		}
+		for j := 0; j < 60; j++ {
+			var o joyOp
+			switch r := rng.Intn(10); {
+			case r < 4:
+				o = joyOp{kind: "p", key: joyKeys[rng.Intn(8)]}
+			case r < 7:
+				o = joyOp{kind: "r", key: joyKeys[rng.Intn(8)]}
+			default:
+				o = joyOp{kind: "w", val: rng.Intn(256)}
+			}
+			joyApply(m, o)
+			seg = append(seg, o.ev(), []any{"rd", int(m.M.Read(0xff00))})
+			if rng.Intn(6) == 0 {
+				seg = readAll(m, seg)
+			}
+		}
+		w.Put(&trace.Scenario{ID: fmt.Sprintf("joy-walk-%d", i), Reset: []int{}, Ev: seg})
+	}
 	w.Close()
 	info := map[string]any{"impl_states": len(order), "impl_transitions": transitions}
 	b, _ := json.Marshal(info)
